@@ -91,6 +91,22 @@ func init() {
 					items = append(items, Item{ID: "dec:" + mc.ID(), Run: func(c *Ctx) { c16dec(c, mc) }})
 				}
 			}
+			// list readers far beyond the small shapes (bulk / zero-copy paths that start at a payload size)
+			for _, p := range c.primInstances() {
+				p := p
+				if p.Family != "ReadBasicTypeList" || p.TArgs[0] != "uint16" {
+					continue
+				}
+				switch p.TArgs[1] {
+				case "uint8", "int16", "uint64":
+				default:
+					continue
+				}
+				for _, n := range []int{300} {
+					n := n
+					items = append(items, Item{ID: fmt.Sprintf("primlong:%s/n=%d", p.Name, n), Run: func(c *Ctx) { c16primLong(c, p, n) }})
+				}
+			}
 			return items
 		}}
 	drivers["C20"] = &Driver{Prop: "C20", Level: "model_checking",
@@ -677,4 +693,57 @@ func (c *Ctx) ownsItsMemory(st *State, msg Value, what string, replay func(val f
 	c.Prove(st, "message-refers-to-no-package-level-object", B(shared == 0), func(val func(*Term) uint64) *Violation {
 		return &Violation{Detail: fmt.Sprintf("after %s the message refers to an object that exists since package initialisation (object %d): independent messages share it", what, shared), Replay: replay(val)}
 	})
+}
+
+
+// c16primLong: a basic-type list reader on n elements of arbitrary bytes (array-backed), preceded by 0..7 arbitrary
+// bytes that were already consumed (alignment of the payload in the backing array): the returned slice may not
+// share memory with the buffer.
+func c16primLong(c *Ctx, p primInst, n int) {
+	e := c.e()
+	s := c.w.newState()
+	ew := typeWidth(p.TArgs[1]) / 8
+	arr := ArrVar(e.freshName("payload"))
+	body := &Bytes{Len: CI(int64(n * ew))}
+	body.At = func(i *Term) *Term { return Select(arr, i) }
+	in := Concat2(VecBytes(prefixBytes(p.TArgs[0], CI(int64(n)), p.LE)), body)
+	bufID := s.newObj(&Obj{Kind: kBuffer, B: in, R: CI(0)})
+	oldU := e.unroll
+	e.unroll = n + 8
+	defer func() { e.unroll = oldU }()
+	steps := func(val func(*Term) uint64) []map[string]any {
+		var st []map[string]any
+		// every alignment of the payload: 0..7 consumed bytes in front
+		for lead := 0; lead < 8; lead++ {
+			bn := fmt.Sprintf("b%d", lead)
+			st = append(st, step("op", "newbuf", "buf", bn, "hex", strings.Repeat("00", lead)+hexOf(evalBytes(in, val)), "consume", lead),
+				step("op", "prim", "fn", p.Name, "args", []any{map[string]any{"buf": bn}}, "keep", bn+"_r"),
+				step("op", "scribble", "buf", bn),
+				step("op", "dumpkept", "name", bn+"_r"))
+		}
+		return st
+	}
+	e.pushCall(s, p.Fn, []Value{&Ptr{Obj: bufID}}, nil)
+	for _, fs := range e.Run(s) {
+		if c.PathProblem(fs, p.Name, nil) {
+			continue
+		}
+		rv := fs.ret.(TupleV)
+		if !isNilErr(rv[1]) {
+			continue
+		}
+		res := rv[0].(*SliceV)
+		an := aliasNotes(fs)
+		shares := res.Obj == bufID
+		for _, other := range an[res.Obj] {
+			if other == bufID {
+				shares = true
+			}
+		}
+		c.Prove(fs, "list-shares-no-memory-with-buffer", B(!shares), func(val func(*Term) uint64) *Violation {
+			return &Violation{Detail: fmt.Sprintf("%s: the returned list of %d elements shares memory with the source buffer", p.Name, n),
+				Replay: &ReplayReq{Steps: steps(val), Judge: Judge{Kind: "kept_changed"}}}
+		})
+		c.Witness(fs, "long list read", func(val func(*Term) uint64) any { return map[string]any{"fn": p.Name, "n": n} })
+	}
 }
